@@ -10,7 +10,7 @@ def run(run):
     n = 0
     for cfg in cfgs:
         n += machine.check_family(run, cfg, f"Machine ({cfg})")
-    nr = machine.check_random(run, FAMILY, 1500 if quick else 20000, "MachineRand: seeded random programs")
+    nr = machine.check_random(run, FAMILY, 4000 if quick else 30000, "MachineRand: seeded random programs")
     run.cov["random_programs"] = nr
     n += nr
     nb = block_traces(run, quick)
